@@ -174,17 +174,23 @@ def model1 (d : DState) (l : Line) : Option (State × List Verdict × DState) :=
     match g "c", g "base", g "sto", g "ing", g "egr", g "coll", g "pay", g "burn" with
     | some c, some base, some sto, some ing, some egr, some coll, some pay, some burn =>
       let cost : Cost := { base, sto, ing, egr, coll }
-      let (s', out) := revise F s c k cost pay burn
+      -- the non-monetary checks the handlers make before charging, from the raw request data
+      let b01 (k : String) := (g k).getD 0 == 1
+      let wf := match k with
+        | .roots => rootsWF ((g "secs").getD 0) ((g "off").getD 0) ((g "n").getD 0)
+        | .write => writeWF (b01 "proof") (b01 "upd") (b01 "ust")
+        | .read => true
+      let (s', out) := revise F s c k cost pay burn wf
       let v := cmp s!"{l.op}.res" (outStr out) (if okRes then "ok" else "rej")
       some (s', v, { d with overpaid := if out == .ok && pay > cost.total then d.overpaid + 1 else d.overpaid })
     | _, _, _, _, _, _, _, _ => none
   | "fund" =>
-    match g "c", g "a", g "cost", g "tot" with
-    | some c, some a, some cost, some tot =>
-      let (s', out) := fund F s c a cost tot
+    match g "c", g "a", g "cost", g "tot", g "up", g "mup" with
+    | some c, some a, some cost, some tot, some up, some mup =>
+      let (s', out) := fund F s c a cost { total := tot, up, mup }
       let v := cmp "fund.res" (match out with | .ok => "ok" | _ => "rej") (if okRes then "ok" else "rej")
       some (s', v, d)
-    | _, _, _, _ => none
+    | _, _, _, _, _, _ => none
   | "pt" | "bal" | "rev" | "exec" =>
     match g "c", g "a", g "amt", getNat l.obs "paid", getNatList l.obs "spent", (getStr l.obs "order").bind parseOrder with
     | some c, some a, some amt, some paid, some [rpc, sto, ing, egr, rr, rw], some order =>
@@ -196,11 +202,21 @@ def model1 (d : DState) (l : Line) : Option (State × List Verdict × DState) :=
         let multi := (order.map (·.1)).eraseDups.length > 1
         let s := { s with rows := rows }
         -- 2. the payment by contract
-        let (s, v1) :=
+        let balBefore := s.bal a
+        let (s, v1, payOk) :=
           if byC then
-            let (s', out) := pay F s c a amt
-            (s', cmp s!"{l.op}.paid" (if out == .ok then "1" else "0") (toString paid))
-          else (s, [])
+            let (s', out) := pay F s c a { total := amt, up := (g "up").getD amt, mup := (g "mup").getD amt }
+            (s', cmp s!"{l.op}.paid" (if out == .ok then "1" else "0") (toString paid), out == .ok)
+          else (s, [], true)
+        -- 2b. a fixed-price RPC whose payment is good and covers the price must be served
+        let v1 := v1 ++ (match getNat l.obs "need" with
+          | some need =>
+            if need == 0 || l.op == "exec" || res.startsWith "panic" then []
+            else
+              let expect := if byC then payOk && decide (need ≤ amt)
+                            else decide (0 < amt) && decide (amt ≤ balBefore) && decide (need ≤ amt)
+              cmp s!"{l.op}.accept" (if expect then "ok" else "rej") (if res == "ok" then "ok" else "rej")
+          | none => [])
         -- 3. the budget commit
         let spent : Usage := { rpc, sto, ing, egr, rr, rw }
         let charged := res == "ok" || res == "fail"
